@@ -10,7 +10,7 @@ import (
 	"golang.org/x/tools/go/ssa"
 )
 
-func init() { register("C13", c13Stable, c13Append, c13Accumulate) }
+func init() { register("C13", c13Stable, c13Append, c13Accumulate, c13Release) }
 
 const pkgStd = Mod + "/pkg/network/standard"
 
